@@ -171,7 +171,11 @@ def execute(history, parent_key):
                            signature=dict(kind="oracle", what="conflict_accepted"))
         last_raised = raised is not None
         last_names = newnames
-        list(root.all_resources()); list(root.windows()); list(root.window_patterns())   # queries between the calls
+        try:
+            list(root.all_resources()); list(root.windows()); list(root.window_patterns())   # queries between the calls
+        except Exception as e:
+            if last:
+                err = err or dict(msg=f"a query after {op} failed: {type(e).__name__}: {e}", signature=dict(kind="oracle", what="internal_error"))
     got = visible_names(root)
     canon = frozenset((tuple((type(p).__name__, p) for p in n)) for n in got)
     if err is None:
